@@ -548,8 +548,15 @@ def check_block_walk(rule, g, gctx, gat, cfgname, name, N):
         raise AnalysisBroken("%s: expected two iterator increments, found %d" % (name, len(incs)))
     by_it = {}
     unguarded = []
+
+    def snap(k):
+        # a local holding a snapshot of an iterator's key (taken before the increments): use its initialiser
+        if k[0] == "var" and k[1] in gctx.decls and gctx.decls[k[1]].get("init") is not None and not gctx.mut.get(k[1]):
+            return gctx.key(gctx.decls[k[1]]["init"])
+        return k
     for j, d, nm in incs:
         fa = gat.get(g.cfg.pos1(j), frozenset())
+        fa = {(x[0], snap(x[1]), snap(x[2])) if x[0] in ("<", "<=", "==", "!=") else x for x in fa}
         rel = [x for x in fa if x[0] == "<=" and key_contains(x[1], lambda y: y[0] == "var") and key_contains(x[2], lambda y: y[0] == "var")]
         mine = [x for x in rel if key_contains(x[1], lambda y: y[:2] == ("var", d))]
         if not mine:
